@@ -902,18 +902,21 @@ Section AfterFunction.
 End AfterFunction.
 
 (* ================= signals ================= *)
-Definition setsigs (kvs t : sigtab) : sigtab := fold_left (fun t sh => setsig (fst sh) (snd sh) t) kvs t.
+Definition setsigs (kvs t : sigtab) : sigtab := fold_left restore_step kvs t.
 
-Lemma getsig_restore (g : nat -> nat) : forall L t s, In s L ->
+(* every saved handler that can be installed is put back; one that getsignal() reported as None is skipped *)
+Lemma getsig_restore (g : nat -> nat) : forall L t s, In s L -> g s <> h_none ->
   getsig s (setsigs (map (fun s => (s, g s)) L) t) = g s.
 Proof.
-  induction L as [|a L IH] using rev_ind; intros t s Hin; [destruct Hin|].
-  unfold setsigs. rewrite map_app, fold_left_app. simpl.
+  induction L as [|a L IH] using rev_ind; intros t s Hin Hg; [destruct Hin|].
+  unfold setsigs. rewrite map_app, fold_left_app. simpl. unfold restore_step at 1. simpl.
   destruct (Nat.eqb a s) eqn:Ea.
-  - apply Nat.eqb_eq in Ea. subst. reflexivity.
-  - apply in_app_or in Hin as [Hin|[Hin|[]]].
-    + apply IH. exact Hin.
-    + subst. rewrite Nat.eqb_refl in Ea. discriminate.
+  - apply Nat.eqb_eq in Ea. subst.
+    destruct (Nat.eqb (g s) h_none) eqn:En; [apply Nat.eqb_eq in En; congruence|].
+    simpl. rewrite Nat.eqb_refl. reflexivity.
+  - assert (Hin' : In s L).
+    { apply in_app_or in Hin as [Hin|[Hin|[]]]; [exact Hin|]. subst. rewrite Nat.eqb_refl in Ea. discriminate. }
+    destruct (Nat.eqb (g a) h_none); [|simpl; rewrite Ea]; apply IH; assumption.
 Qed.
 
 (* table obligations (Gen/Spinnertabs.v is printed from the live code) *)
@@ -937,32 +940,31 @@ Record Idle (w : world) : Prop := {
   id_rd : readers (w_r w) = [];
   id_hk : hooks (w_r w) = [];
   id_rs : really_stopped (w_r w) = false;
-  id_stop : w_stop w = SReal;
   id_flag : w_flag w = false
 }.
 
 Definition sig_run (sg : sigtab) : sigtab := fold_left (fun t s => setsig s h_reactor t) reactor_signals sg.
 Definition saved_of (sg : sigtab) : sigtab := map (fun s => (s, getsig s sg)) preserved_signals.
 
-Definition finish (e : loop_end) (wl : world) : res value exc * world :=
-  let w := restore_signals (set_stop SReal wl) in
+Definition finish (real : stopfn) (e : loop_end) (wl : world) : res value exc * world :=
+  let w := restore_signals (set_stop real wl) in
   match e with
   | LDone => (get_result (w_sp w), clean 0 w)
   | _ => (Raised EOther, w)
   end.
 
-Lemma run_body_eq batch T f n sq orc sg su fa spn tc sv re :
+Lemma run_body_eq batch T f n sq orc st sg su fa spn tc sv re :
   run_body (inner_run 0 batch) 0 batch T f
-    (mkW (mkReactor n sq [] [] [] false false orc) SReal sg true (mkSp su fa [] spn tc sv) [] re)
+    (mkW (mkReactor n sq [] [] [] false false orc) st sg true (mkSp su fa [] spn tc sv) [] re)
   = let '(e, wl) := loop w_r set_r exec_call batch (1 + length (f_extras f) + 4)
                          (run_function (inner_run 0 batch) f (w_hook n T sq orc (sig_run sg) (saved_of sg) re)) in
-    finish e wl.
+    finish st e wl.
 Proof. reflexivity. Qed.
 
-Lemma finish_ok wl : running (w_r wl) = false -> hooks (w_r wl) = [] -> really_stopped (w_r wl) = false ->
+Lemma finish_ok real wl : running (w_r wl) = false -> hooks (w_r wl) = [] -> really_stopped (w_r wl) = false ->
   w_flag wl = true -> sp_junk (w_sp wl) = [] ->
-  exists w3, finish LDone wl = (get_result (w_sp wl), w3)
-    /\ Idle (set_flag false w3)
+  exists w3, finish real LDone wl = (get_result (w_sp wl), w3)
+    /\ Idle (set_flag false w3) /\ w_stop w3 = real
     /\ sp_junk (w_sp w3) = map tokc (queue (w_r wl)) ++ readers (w_r wl)
     /\ w_ran w3 = w_ran wl /\ w_reentry w3 = w_reentry wl
     /\ w_sig w3 = setsigs (sp_saved (w_sp wl)) (w_sig wl).
@@ -970,7 +972,7 @@ Proof.
   destruct wl as [[n sq q h rd run rs orc] st sg fl [su fa jk spn tc sv] ran re]. prj. intros -> -> -> -> ->.
   unfold finish, clean. simpl Nat.iter.
   set (w1 := restore_signals _).
-  assert (Ew1 : w1 = mkW (mkReactor n sq q [] rd false false orc) SReal (setsigs sv sg) true
+  assert (Ew1 : w1 = mkW (mkReactor n sq q [] rd false false orc) real (setsigs sv sg) true
                          (mkSp su fa [] spn tc []) ran re) by reflexivity.
   rewrite Ew1. clear w1 Ew1. prj.
   set (w0 := mkW _ _ _ _ _ _ _).
@@ -982,6 +984,7 @@ Proof.
   eexists. split; [reflexivity|]. prj. unfold remove_all, set_r, set_sp, sp_set_junk. prj.
   split; [constructor; reflexivity|]. repeat split; reflexivity.
 Qed.
+
 
 Lemma filter_nt_rd2 f : filter nt (rd2 f) = rd2 f.
 Proof.
@@ -997,24 +1000,25 @@ Proof.
   - destruct H.
 Qed.
 
-Definition restored (sg0 sg' : sigtab) : Prop := forall s, In s preserved_signals -> getsig s sg' = getsig s sg0.
+Definition restored (sg0 sg' : sigtab) : Prop :=
+  forall s, In s preserved_signals -> getsig s sg0 <> h_none -> getsig s sg' = getsig s sg0.
 
 Theorem run_fresh batch T f w : Idle w -> sp_junk (w_sp w) = [] -> w_ran w = [] ->
-  exists r w', run 0 batch T f w = (r, w') /\ Idle w'
+  exists r w', run 0 batch T f w = (r, w') /\ Idle w' /\ w_stop w' = w_stop w
     /\ allowed T f (w_ran w') r = true
     /\ w_reentry w' = (if f_reenter f then Some true else w_reentry w)
     /\ Permutation (filter nt (w_ran w') ++ filter nt (sp_junk (w_sp w'))) (sched_tokens f)
     /\ (In tok_timeout (sp_junk (w_sp w')) -> r = Raised ENoResult)
     /\ restored (w_sig w) (w_sig w').
 Proof.
-  intros [Hrun Hq Hrd Hhk Hrs Hst Hfl] Hjk Hran.
+  intros [Hrun Hq Hrd Hhk Hrs Hfl] Hjk Hran.
   destruct w as [[n sq q h rd run rs orc] st sg fl [su fa jk spn tc sv] ran re]. prj. subst.
   unfold run, guarded. prj. cbv iota. unfold set_flag at 1. prj.
   rewrite run_body_eq, run_function_eq.
   set (SG := sig_run sg). set (SV := saved_of sg).
   assert (Hrest : forall w3 sgl, w_sig w3 = setsigs SV sgl -> restored sg (w_sig (set_flag false w3))).
-  { intros w3 sgl H1 s Hs. unfold set_flag; prj. rewrite H1. unfold SV, saved_of.
-    apply (getsig_restore (fun s => getsig s sg)). exact Hs. }
+  { intros w3 sgl H1 s Hs Hn. unfold set_flag; prj. rewrite H1. unfold SV, saved_of.
+    apply (getsig_restore (fun s => getsig s sg)); assumption. }
   destruct (is_sync f) eqn:Hsy; [|destruct (f_stop_now f) eqn:Hsn].
   - (* the function returned a result synchronously *)
     unfold is_sync in Hsy. destruct (f_shape f) as [how o| |] eqn:Es; try discriminate.
@@ -1025,8 +1029,8 @@ Proof.
                            [] false (Some sq) SV) [] (re2 f re)).
     { unfold w_after. rewrite Es. reflexivity. }
     rewrite Ew. rewrite loop_stopped by reflexivity.
-    match goal with |- context [finish LDone ?wl] => destruct (finish_ok wl) as [w3 [Ef [Hid [Hj [Hr [Hre Hsg]]]]]]; try reflexivity end.
-    rewrite Ef. prj. eexists; eexists. split; [reflexivity|]. split; [exact Hid|].
+    match goal with |- context [finish ?rl LDone ?wl] => destruct (finish_ok rl wl) as [w3 [Ef [Hid [Hst3 [Hj [Hr [Hre Hsg]]]]]]]; try reflexivity end.
+    rewrite Ef. prj. eexists; eexists. split; [reflexivity|]. split; [exact Hid|]. split; [exact Hst3|].
     unfold set_flag; prj. rewrite Hj, Hr, Hre. prj.
     split; [|split; [reflexivity|split; [|split]]].
     + unfold allowed. rewrite Es. apply result_eqb_spec. destruct o; reflexivity.
@@ -1044,8 +1048,8 @@ Proof.
                      SFake (sig_fn f SG) true (mkSp None None [] true (Some sq) SV) [] (re2 f re)).
     { unfold w_after. unfold is_sync in Hsy. rewrite Hsn. destruct (f_shape f); [discriminate| |]; reflexivity. }
     rewrite Ew. rewrite loop_stopped by reflexivity.
-    match goal with |- context [finish LDone ?wl] => destruct (finish_ok wl) as [w3 [Ef [Hid [Hj [Hr [Hre Hsg]]]]]]; try reflexivity end.
-    rewrite Ef. prj. eexists; eexists. split; [reflexivity|]. split; [exact Hid|].
+    match goal with |- context [finish ?rl LDone ?wl] => destruct (finish_ok rl wl) as [w3 [Ef [Hid [Hst3 [Hj [Hr [Hre Hsg]]]]]]]; try reflexivity end.
+    rewrite Ef. prj. eexists; eexists. split; [reflexivity|]. split; [exact Hid|]. split; [exact Hst3|].
     unfold set_flag; prj. rewrite Hj, Hr, Hre. prj.
     split; [|split; [reflexivity|split; [|split]]].
     + unfold allowed. rewrite Hsn. unfold is_sync in Hsy. destruct (f_shape f); [discriminate| |]; reflexivity.
@@ -1061,9 +1065,9 @@ Proof.
           destruct (f_stop f); simpl; lia. }
       lia. }
     rewrite El.
-    destruct (finish_ok wl Hrunl (i_hooks _ _ HI) (i_rs _ _ HI) (i_flag _ _ HI) (i_junk _ _ HI))
-      as [w3 [Ef [Hid [Hj [Hr [Hre Hsg]]]]]].
-    rewrite Ef. eexists; eexists. split; [reflexivity|]. split; [exact Hid|].
+    destruct (finish_ok st wl Hrunl (i_hooks _ _ HI) (i_rs _ _ HI) (i_flag _ _ HI) (i_junk _ _ HI))
+      as [w3 [Ef [Hid [Hst3 [Hj [Hr [Hre Hsg]]]]]]].
+    rewrite Ef. eexists; eexists. split; [reflexivity|]. split; [exact Hid|]. split; [exact Hst3|].
     unfold set_flag; prj. rewrite Hj, Hr, Hre.
     pose proof (st_decided _ _ _ _ (i_st _ _ HI)) as Hdec. simpl c_f in Hdec.
     split; [|split; [|split; [|split]]].
@@ -1122,45 +1126,74 @@ Proof. intro H. pose proof (sort_toks_perm l) as P. rewrite H in P. apply Permut
 Lemma natlist_eqb_refl l : list_eqb Nat.eqb l l = true.
 Proof. apply natlist_eqb_spec. reflexivity. Qed.
 
+Lemma sigs_okb_map (g g' : nat -> nat) : forall L,
+  (forall s, In s L -> g s = h_none \/ g' s = g s) -> sigs_okb (map g L) (map g' L) = true.
+Proof.
+  induction L as [|a L IH]; intro H; simpl; [reflexivity|].
+  rewrite IH by (intros s Hs; apply H; right; exact Hs). rewrite andb_true_r.
+  destruct (H a (or_introl eq_refl)) as [E|E]; rewrite E; [reflexivity|]. rewrite Nat.eqb_refl. apply orb_true_r.
+Qed.
+
 Lemma preinstall_sigs pre w : length pre = length reactor_signals ->
   map (fun s => getsig s (w_sig (preinstall pre w))) reactor_signals = pre.
 Proof.
   destruct pre as [|a [|b [|c [|d pre]]]]; try discriminate. intros _. reflexivity.
 Qed.
 
-Lemma idle_prepare rs w : Idle w ->
-  Idle (set_reentry None (set_ran [] (preinstall (r_pre rs) (if r_clear rs then clear_junk w else w)))).
+Definition prepare (rs : runspec) (w : world) : world :=
+  set_reentry None (set_ran [] (install_stop (r_stop rs)
+    (preinstall (r_pre rs) (if r_clear rs then clear_junk w else w)))).
+
+Lemma idle_prepare rs w : Idle w -> Idle (prepare rs w).
 Proof.
-  intros [H1 H2 H3 H4 H5 H6 H7]. destruct w as [r st sg fl sp ran re].
-  destruct (r_clear rs); constructor; assumption.
+  intros [H1 H2 H3 H4 H5 H6]. destruct w as [r st sg fl sp ran re]. unfold prepare, install_stop.
+  destruct (r_clear rs), (r_stop rs); constructor; assumption.
 Qed.
 
-Lemma step_ok batch w rs : Idle w -> wf_run rs ->
-  run_okb (if r_clear rs then [] else sort_toks (sp_junk (w_sp w))) rs (fst (step batch w rs)) = true
-  /\ Idle (snd (step batch w rs))
-  /\ o_junk (fst (step batch w rs)) = sort_toks (sp_junk (w_sp (snd (step batch w rs)))).
+Lemma id_of_stop_of_id k : id_of_stop (stop_of_id k) = k.
+Proof. destruct k; reflexivity. Qed.
+
+Lemma prepare_stop ps rs w : id_of_stop (w_stop w) = ps -> id_of_stop (w_stop (prepare rs w)) = stop_before ps rs.
 Proof.
-  intros Hid Hwf. unfold step. rewrite tab_iterations.
-  set (w3 := set_reentry None (set_ran [] (preinstall (r_pre rs) (if r_clear rs then clear_junk w else w)))).
+  intro H. unfold prepare, stop_before, install_stop, set_reentry, set_ran. prj.
+  destruct (r_stop rs) as [k|]; prj.
+  - unfold set_stop. prj. apply id_of_stop_of_id.
+  - destruct w as [r st sg fl sp ran re]. destruct (r_clear rs); exact H.
+Qed.
+
+Lemma step_ok batch ps w rs : Idle w -> wf_run rs -> id_of_stop (w_stop w) = ps ->
+  run_okb (if r_clear rs then [] else sort_toks (sp_junk (w_sp w))) (stop_before ps rs) rs (fst (step batch w rs)) = true
+  /\ Idle (snd (step batch w rs))
+  /\ o_junk (fst (step batch w rs)) = sort_toks (sp_junk (w_sp (snd (step batch w rs))))
+  /\ id_of_stop (w_stop (snd (step batch w rs))) = stop_before ps rs.
+Proof.
+  intros Hid Hwf Hps. unfold step. rewrite tab_iterations.
+  fold (prepare rs w). set (w3 := prepare rs w).
   pose proof (idle_prepare rs w Hid) as Hid3. fold w3 in Hid3.
+  pose proof (prepare_stop ps rs w Hps) as Hst3. fold w3 in Hst3.
   assert (Hsig3 : map (fun s => getsig s (w_sig w3)) reactor_signals = r_pre rs).
-  { subst w3. unfold set_reentry, set_ran. prj. apply preinstall_sigs. exact Hwf. }
+  { subst w3. unfold prepare, set_reentry, set_ran, install_stop. prj.
+    destruct (r_stop rs); unfold set_stop; prj; apply preinstall_sigs; exact Hwf. }
   assert (Hran3 : w_ran w3 = []) by reflexivity.
   assert (Hre3 : w_reentry w3 = None) by reflexivity.
   assert (Hj3 : sp_junk (w_sp w3) = if r_clear rs then [] else sp_junk (w_sp w)).
-  { subst w3. destruct w as [r st sg fl [su fa jk spn tc sv] ran re]. destruct (r_clear rs); reflexivity. }
+  { subst w3. unfold prepare, install_stop. destruct w as [r st sg fl [su fa jk spn tc sv] ran re].
+    destruct (r_clear rs), (r_stop rs); reflexivity. }
   destruct (sp_junk (w_sp w3)) as [|j0 jr] eqn:Ej.
   - (* no stale junk: the run takes place *)
     destruct (run_fresh batch (r_timeout rs) (r_fn rs) w3 Hid3 Ej Hran3)
-      as [r [w' [Er [Hid' [Hal [Hre [Hperm [Hown Hrest]]]]]]]].
-    rewrite Er. cbn [fst snd]. split; [|split; [exact Hid' | reflexivity]].
+      as [r [w' [Er [Hid' [Hst' [Hal [Hre [Hperm [Hown Hrest]]]]]]]]].
+    rewrite Er. cbn [fst snd]. split; [|split; [exact Hid' | split; [reflexivity | rewrite Hst'; exact Hst3]]].
     assert (Hstale : (if r_clear rs then [] else sort_toks (sp_junk (w_sp w))) = []).
     { destruct (r_clear rs); [reflexivity|]. rewrite <- Hj3. reflexivity. }
-    rewrite Hstale. unfold run_okb, clean_okb, observe. cbn [o_res o_reentry o_ran o_order o_junk o_running o_pending o_readers o_stop_ok o_sigs].
-    destruct Hid' as [H1 H2 H3 H4 H5 H6 H7]. rewrite H1, H2, H3, H5, H6. cbn [length negb Nat.eqb andb].
-    assert (Hsigs : map (fun s => getsig s (w_sig w')) reactor_signals = r_pre rs).
-    { rewrite <- Hsig3. apply map_ext_in. intros s Hs. apply Hrest. apply tab_preserved. exact Hs. }
-    rewrite Hsigs, natlist_eqb_refl, Hal, natlist_eqb_refl, Hre, Hre3. cbn [andb].
+    rewrite Hstale. unfold run_okb, clean_okb, observe.
+    cbn [o_res o_reentry o_ran o_order o_junk o_running o_pending o_readers o_stop o_stopped o_sigs].
+    destruct Hid' as [H1 H2 H3 H4 H5 H7]. rewrite H1, H2, H3, H5, Hst', Hst3, !Nat.eqb_refl. cbn [length negb Nat.eqb andb].
+    assert (Hsigs : sigs_okb (r_pre rs) (map (fun s => getsig s (w_sig w')) reactor_signals) = true).
+    { rewrite <- Hsig3. apply sigs_okb_map. intros s Hs.
+      destruct (Nat.eqb (getsig s (w_sig w3)) h_none) eqn:En; [left; apply Nat.eqb_eq; exact En|].
+      right. apply Hrest; [apply tab_preserved; exact Hs | apply Nat.eqb_neq; exact En]. }
+    rewrite Hsigs, Hal, natlist_eqb_refl, Hre, Hre3. cbn [andb].
     assert (Hr : option_eqb Bool.eqb (if f_reenter (r_fn rs) then Some true else None)
                             (if f_reenter (r_fn rs) then Some true else None) = true).
     { apply optbool_eqb_spec. reflexivity. }
@@ -1177,21 +1210,22 @@ Proof.
     { destruct (r_clear rs); [discriminate | reflexivity]. }
     rewrite Hc in *. rewrite <- Hj3.
     rewrite (run_stale 0 batch (r_timeout rs) (r_fn rs) w3 (id_flag _ Hid3)) by (rewrite Ej; discriminate).
-    cbn [fst snd]. split; [|split; [exact Hid3 | reflexivity]].
-    unfold run_okb, clean_okb, observe. cbn [o_res o_reentry o_ran o_order o_junk o_running o_pending o_readers o_stop_ok o_sigs].
-    destruct Hid3 as [H1 H2 H3 H4 H5 H6 H7]. rewrite H1, H2, H3, H5, H6, Hsig3, Hran3, Hre3, natlist_eqb_refl.
+    cbn [fst snd]. split; [|split; [exact Hid3 | split; [reflexivity | exact Hst3]]].
+    unfold run_okb, clean_okb, observe.
+    cbn [o_res o_reentry o_ran o_order o_junk o_running o_pending o_readers o_stop o_stopped o_sigs].
+    destruct Hid3 as [H1 H2 H3 H4 H5 H7]. rewrite H1, H2, H3, H5, Hst3, !Nat.eqb_refl, Hsig3, Hran3, Hre3, sigs_okb_refl.
     cbn [length negb Nat.eqb andb].
     rewrite Ej. destruct (sort_toks (j0 :: jr)) as [|s0 sr] eqn:Es.
     + apply sort_toks_nil in Es. discriminate.
     + rewrite natlist_eqb_refl. reflexivity.
 Qed.
 
-Lemma steps_ok batch : forall rss w, Idle w -> Forall wf_run rss ->
-  runs_okb (sort_toks (sp_junk (w_sp w))) rss (steps batch w rss) = true.
+Lemma steps_ok batch : forall rss ps w, Idle w -> Forall wf_run rss -> id_of_stop (w_stop w) = ps ->
+  runs_okb (sort_toks (sp_junk (w_sp w))) ps rss (steps batch w rss) = true.
 Proof.
-  induction rss as [|rs rss IH]; intros w Hid Hwf; simpl; [reflexivity|].
+  induction rss as [|rs rss IH]; intros ps w Hid Hwf Hps; simpl; [reflexivity|].
   inversion Hwf as [|? ? Hrs Hrest]; subst.
-  destruct (step_ok batch w rs Hid Hrs) as [H1 [H2 H3]].
+  destruct (step_ok batch (id_of_stop (w_stop w)) w rs Hid Hrs eq_refl) as [H1 [H2 [H3 H4]]].
   destruct (step batch w rs) as [o w'] eqn:Es. cbn [fst snd] in *.
   apply andb_true_iff. split.
   - destruct (r_clear rs); exact H1.
@@ -1204,7 +1238,7 @@ Proof. constructor; reflexivity. Qed.
 Theorem model_meets_spec i : wf i -> spec_okb i (model i) = true.
 Proof.
   intro Hwf. unfold spec_okb, model.
-  exact (steps_ok (i_batch i) (i_runs i) (new_world (i_oracle i)) (idle_new _) Hwf).
+  exact (steps_ok (i_batch i) (i_runs i) 0 (new_world (i_oracle i)) (idle_new _) Hwf eq_refl).
 Qed.
 
 (* ================= the clauses, on the model's own state ================= *)
@@ -1217,7 +1251,7 @@ Theorem clause_result batch T f w : Ready w -> sp_junk (w_sp w) = [] ->
   Allowed T f (w_ran (snd (run1 batch T f w))) (fst (run1 batch T f w)).
 Proof.
   intros [Hid Hran] Hj. unfold run1. rewrite tab_iterations.
-  destruct (run_fresh batch T f w Hid Hj Hran) as [r [w' [Er [_ [Hal _]]]]]. rewrite Er. cbn [fst snd].
+  destruct (run_fresh batch T f w Hid Hj Hran) as [r [w' [Er [_ [_ [Hal _]]]]]]. rewrite Er. cbn [fst snd].
   apply allowed_sound. exact Hal.
 Qed.
 
@@ -1301,7 +1335,7 @@ Theorem clause_reentry batch T f w : Ready w -> sp_junk (w_sp w) = [] -> f_reent
   w_reentry (snd (run1 batch T f w)) = Some true /\ w_flag (snd (run1 batch T f w)) = false.
 Proof.
   intros [Hid Hran] Hj Hre. unfold run1. rewrite tab_iterations.
-  destruct (run_fresh batch T f w Hid Hj Hran) as [r [w' [Er [Hid' [_ [Hr _]]]]]]. rewrite Er. cbn [snd].
+  destruct (run_fresh batch T f w Hid Hj Hran) as [r [w' [Er [Hid' [_ [_ [Hr _]]]]]]]. rewrite Er. cbn [snd].
   rewrite Hre in Hr. split; [exact Hr | exact (id_flag _ Hid')].
 Qed.
 
@@ -1318,7 +1352,7 @@ Theorem clause_clean batch T f w : Ready w ->
 Proof.
   intros [Hid Hran]. cbv zeta. destruct (sp_junk (w_sp w)) as [|j0 jr] eqn:Ej.
   - unfold run1. rewrite tab_iterations.
-    destruct (run_fresh batch T f w Hid Ej Hran) as [r [w' [Er [Hid' [_ [_ [Hp [Ho _]]]]]]]]. rewrite Er. cbn [fst snd].
+    destruct (run_fresh batch T f w Hid Ej Hran) as [r [w' [Er [Hid' [_ [_ [_ [Hp [Ho _]]]]]]]]]. rewrite Er. cbn [fst snd].
     destruct Hid'. repeat split; assumption.
   - rewrite (clause_stale batch T f w (conj Hid Hran)) by (rewrite Ej; discriminate). cbn [snd].
     destruct Hid. repeat split; try assumption; discriminate.
@@ -1326,16 +1360,16 @@ Qed.
 
 Theorem clause_restored batch T f w : Ready w ->
   let w' := snd (run1 batch T f w) in
-  w_stop w' = SReal /\ really_stopped (w_r w') = false
-  /\ forall s, In s reactor_signals -> getsig s (w_sig w') = getsig s (w_sig w).
+  w_stop w' = w_stop w /\ really_stopped (w_r w') = false
+  /\ forall s, In s reactor_signals -> getsig s (w_sig w) <> h_none -> getsig s (w_sig w') = getsig s (w_sig w).
 Proof.
   intros [Hid Hran]. cbv zeta. destruct (sp_junk (w_sp w)) as [|j0 jr] eqn:Ej.
   - unfold run1. rewrite tab_iterations.
-    destruct (run_fresh batch T f w Hid Ej Hran) as [r [w' [Er [Hid' [_ [_ [_ [_ Hrest]]]]]]]]. rewrite Er. cbn [snd].
-    split; [exact (id_stop _ Hid')|]. split; [exact (id_rs _ Hid')|].
-    intros s Hs. apply Hrest. apply tab_preserved. exact Hs.
+    destruct (run_fresh batch T f w Hid Ej Hran) as [r [w' [Er [Hid' [Hst' [_ [_ [_ [_ Hrest]]]]]]]]]. rewrite Er. cbn [snd].
+    split; [exact Hst'|]. split; [exact (id_rs _ Hid')|].
+    intros s Hs Hn. apply Hrest; [apply tab_preserved; exact Hs | exact Hn].
   - rewrite (clause_stale batch T f w (conj Hid Hran)) by (rewrite Ej; discriminate). cbn [snd].
-    split; [exact (id_stop _ Hid)|]. split; [exact (id_rs _ Hid)|]. reflexivity.
+    split; [reflexivity|]. split; [exact (id_rs _ Hid)|]. reflexivity.
 Qed.
 
 Theorem clause_histories i : wf i -> Spec i (model i).
